@@ -4,11 +4,11 @@ CONSTANTS
   NW = 2
   NT = 3
   NG = 2
-  KCodes = {0, 1010000, 1030002, 3000100, 15150101, 2020505, 15151515, 1400}
+  KCodes = {0, 1010000, 1030002, 15150101, 2020505, 1400}
   WIds = {2, 3, 4}
   LMode = "mixed"
-  ECodes = {0, 100, 1, 1500}
-  TCodes = {111,123,321,213,333}
+  ECodes = {0, 100, 1500}
+  TCodes = {111,123,321,213}
   QuadIds = {4}
   ClampE = 15
   SlackE = 14
